@@ -73,6 +73,8 @@ def gen_cases(seed, tier):
                 # own exact value function, or a constant-reward incumbent with zero values - the very
                 # first evaluation sweep already passes the stopping test
                 c["warm"] = [None, None, None, "incumbent", "flat"][int(rng.integers(0, 5))]
+                if g > 0.9999:
+                    c["warm"] = None     # a non-zero start at the absorbing sink decays at rate gamma only: unaffordable
             if sv == "sa":
                 c["shuffle"] = bool(rng.integers(0, 2))
                 c["random_seed"] = int(rng.integers(0, 10**6))
@@ -120,6 +122,8 @@ def warm_problem(case, g):
         t["init"] = refmdp.evalpi(P, R, pi0, g)
     else:  # "flat": action 0 earns the same expected reward c in every state; v0 = c/(1-g)
         c = float(r.normal() * spec["scale"])
+        if t.get("intrew"):
+            c = float(np.round(c))          # integer-reward problems hand their table out as int32
         t["rew"][:, 0, :] = c
         t["ipol"] = np.zeros(S, dtype=int)
         t["init"] = np.full(S, c / (1.0 - g)) if r.random() < 0.5 else None
